@@ -510,6 +510,8 @@ def run_history(case):
             sc2 = max([sc] + [abs(x) for x in exp["reg"]["lo"] + exp["reg"]["hi"]])
             if not matches(new_root_obs, dict(exp, type="mesh"), not rot_now, sc2):
                 here.append("affine-map")
+        if nf:
+            here = [c_ for c_ in here if c_ == "nonfinite-argument-accepted"]
         oracle += here
         trace.append(dict(step=idx, ip=st_ip, copy=st_cp, after_inplace=obs_ip, after_copy=new_root_obs,
                           clauses=sorted(set(here))))
@@ -604,6 +606,33 @@ def run_partial_far(case):
         rec["oracle"].append("rejected-step-modified-object")
     if st == "ok":
         rec["oracle"] += [c for c in invariants(m, "ip")]
+    return rec
+
+
+def run_far_collapse(case):
+    """rounding regime, oracle only: a step whose result collapses an edge at a far-away position must be
+    refused by both forms and leave the object untouched"""
+    rec = dict(kind="far-collapse", case=case, coq=None, oracle=[], tags=[], size=1, key="far-collapse/" + case["which"])
+    r = df.Region(p1=(0, 0, 0), p2=(1, 1, 1))
+    before = snapshot(r)
+    if case["which"] == "translate":
+        f = lambda ip: r.translate((1e20, 0, 0), inplace=ip)  # noqa: E731
+    elif case["which"] == "rotate":
+        f = lambda ip: r.rotate90("x", "y", reference_point=(1e20, 0, 0), inplace=ip)  # noqa: E731
+    else:
+        f = lambda ip: r.scale(2, reference_point=(1e20, 0, 0), inplace=ip)  # noqa: E731
+    st_cp, _ = attempt(lambda: f(False))
+    mid = snapshot(r)
+    st_ip, _ = attempt(lambda: f(True))
+    after = snapshot(r)
+    rec["obs"] = dict(copy=st_cp, inplace=st_ip, after=after["reg"])
+    if mid != before or (st_ip != "ok" and after != before):
+        rec["oracle"].append("rejected-step-modified-object")
+    if st_ip == "ok":
+        rec["oracle"] += [c for c in invariants(r, "ip") if c.startswith("degenerate")]
+    if (st_ip == "ok") != (st_cp == "ok"):
+        rec["oracle"].append("forms-disagree-on-acceptance")
+    rec["oracle"] = sorted(set(rec["oracle"]))
     return rec
 
 
@@ -938,6 +967,8 @@ def generate(rng, tier):
     cases.append(dict(kind="aliased", which="two-fields-one-mesh"))
     cases.append(dict(kind="aliased", which="mesh-region-direct"))
     cases.append(dict(kind="mesh-partial-far"))
+    for w in ("translate", "rotate", "scale"):
+        cases.append(dict(kind="far-collapse", which=w))
     return cases
 
 
@@ -966,6 +997,8 @@ def run_case(case):
         return run_aliased(case)
     if kind == "mesh-partial-far":
         return run_partial_far(case)
+    if kind == "far-collapse":
+        return run_far_collapse(case)
     tags = []
     if kind == "nonfinite":
         case = nonfinite_case(case["which"])
